@@ -48,7 +48,13 @@ def _cols(draw: st.DrawFn, allow_empty: bool = True) -> list[dict[str, str]]:
     """Like ``programs._cols`` but not biased towards the zero-column schema; 1/3 of utf8/int64 columns dictionary-encoded."""
     n = draw(st.sampled_from([1, 2, 3, 0, 1, 2] if allow_empty else [1, 2, 3]))
     types = list(RT.ARROW_TYPES) + ["dict_utf8", "dict_int64", "utf8", "int64"]
-    return [{"name": f"c{i}", "type": draw(st.sampled_from(types))} for i in range(n)]
+    cols: list[dict[str, Any]] = [{"name": f"c{i}", "type": draw(st.sampled_from(types))} for i in range(n)]
+    for c in cols:
+        # field-level metadata (column comments) of varying length: two methods may then differ ONLY in it
+        k = draw(st.sampled_from([0, 0, 0, 1, 2, 3]))
+        if k:
+            c["fmeta"] = {"comment": ["", "short", "a much longer column comment " * 3][k - 1]}
+    return cols
 
 
 @st.composite
